@@ -1112,6 +1112,11 @@ impl<'a> CExec<'a> {
                 // user functions: same namespace first, then outer ones
                 let candidates = self.resolve_functions(&q);
                 if !candidates.is_empty() {
+                    // the exporters print an instantiation as `template<typename> R f(...)`: its template parameters are unnamed
+                    // and appear in no function parameter, so a call without explicit template arguments cannot be resolved
+                    if targs.is_empty() && candidates.iter().all(|f| self.funcs[*f].template_instance) {
+                        return ill(format!("call to {} without template arguments: every candidate is a template whose parameters cannot be deduced", q));
+                    }
                     return self.call_user(&candidates, args, None, &q);
                 }
                 // a method called from inside a method
